@@ -2,8 +2,8 @@
 use crate::report::*;
 use std::process::Command;
 
-pub const CONSTRUCTS: [&str; 22] = [
-    "neg", "not", "binary-left", "binary-right", "call", "builtin", "list", "map", "else-chain", "else-chain-none", "and-skip-right", "or-skip-right", "index-chain", "parens",
+pub const CONSTRUCTS: [&str; 24] = [
+    "neg", "not", "binary-left", "binary-right", "call", "builtin", "list", "map", "else-chain", "else-chain-none", "and-skip-right", "or-skip-right", "eq-none-skip-right", "neq-none-skip-right", "index-chain", "parens",
     "flat-list", "flat-map", "flat-args", "long-string", "long-name", "unclosed-parens", "unclosed-brackets", "bad-tail",
 ];
 pub const OPS: [&str; 13] = ["parse", "parse-rule", "parse-rule-meta", "parse-again", "parse-rule-again", "drop", "display", "clone", "eq", "evaluate", "display-value", "rule-new", "ruleset-build"];
@@ -34,7 +34,7 @@ pub fn run(rep: &mut Report, thorough: bool) {
     let depths: Vec<usize> = if thorough { vec![100, 1_000, 10_000, 100_000, 1_000_000] } else { vec![100, 1_000, 10_000, 100_000] };
     let mut sr = StreamReport::new(
         "nesting-depth",
-        "one child process per (construct in {unary minus, not, left-deep binary, right-nested binary, user call, built-in call, list, map, else-chain, a right-nested and / or chain that the left operand cuts off, index chain, parentheses — nested n deep; flat list, flat map, flat list of calls / steps / negations, string literal, identifier — n items or characters long at depth 1; unclosed parentheses, unclosed mixed brackets, balanced parentheses around a syntax error — texts that do not parse}, operation in {Expr::parse, Rule::parse, Rule::parse with the construct in a metadata constant, the same text parsed three times by either entry point, drop, display, clone, ==, evaluate, display of the evaluated value, Rule::new on the parsed tree, a ruleset built from that rule}, depth in {1e2, 1e3, 1e4, 1e5 (thorough also 1e6)}, thread in {main, 2 MiB worker}, build in {the harness profile (optimised, overflow checks on), unoptimised}); the exit status tells whether the process survived; for each crashing pair the threshold is located by bisection",
+        "one child process per (construct in {unary minus, not, left-deep binary, right-nested binary, user call, built-in call, list, map, else-chain, a right-nested and / or chain that the left operand cuts off, a deep right operand of == / != after a None, index chain, parentheses — nested n deep; flat list, flat map, flat list of calls / steps / negations, string literal, identifier — n items or characters long at depth 1; unclosed parentheses, unclosed mixed brackets, balanced parentheses around a syntax error — texts that do not parse}, operation in {Expr::parse, Rule::parse, Rule::parse with the construct in a metadata constant, the same text parsed three times by either entry point, drop, display, clone, ==, evaluate, display of the evaluated value, Rule::new on the parsed tree, a ruleset built from that rule}, depth in {1e2, 1e3, 1e4, 1e5 (thorough also 1e6)}, thread in {main, 2 MiB worker}, build in {the harness profile (optimised, overflow checks on), unoptimised}); the exit status tells whether the process survived; for each crashing pair the threshold is located by bisection",
         true,
     );
     let mut jobs = vec![];
@@ -49,7 +49,7 @@ pub fn run(rep: &mut Report, thorough: bool) {
                 continue;
             }
             // (only its evaluation differs from else-chain)
-            if matches!(c, "else-chain-none" | "and-skip-right" | "or-skip-right") && !(op == "evaluate" || op == "parse" || op == "parse-rule") {
+            if matches!(c, "else-chain-none" | "and-skip-right" | "or-skip-right" | "eq-none-skip-right" | "neq-none-skip-right") && !(op == "evaluate" || op == "parse" || op == "parse-rule") {
                 continue;
             }
             // texts that do not parse have no tree to operate on
